@@ -26,3 +26,23 @@ func VerifPostprocessItem(item *models.Item) []*models.Item {
 	}
 	return postprocessItem(item)
 }
+
+// VerifExtractAssets / VerifExtractOutlinks run the real dispatchers on an item that carries a response and a body.
+func VerifExtractAssets(item *models.Item) (assets, outlinks []*models.URL, err error) {
+	log.Start()
+	if logger == nil {
+		logger = log.NewFieldedLogger(&log.Fields{"component": "postprocessor"})
+	}
+	if !shouldExtractAssets(item) {
+		return nil, nil, nil
+	}
+	return extractAssets(item)
+}
+
+func VerifExtractOutlinks(item *models.Item) ([]*models.URL, error) {
+	log.Start()
+	if logger == nil {
+		logger = log.NewFieldedLogger(&log.Fields{"component": "postprocessor"})
+	}
+	return extractOutlinks(item)
+}
